@@ -340,7 +340,13 @@ func (e *eng) runInjected() {
 	e.injecting = true
 	buf := &lineBuf{}
 	for _, l := range lines {
-		e.op(strings.Fields(l), l, buf)
+		// only plain transaction ops may run inside a leg (a shrunk case can shift other lines into the block)
+		switch f := strings.Fields(l); f[0] {
+		case "begin", "insert", "delete", "reginit", "initdone", "commit", "abort":
+			e.op(f, l, buf)
+		default:
+			buf.P("M:C07,C19 n/a")
+		}
 	}
 	e.injecting = false
 	e.injOut = append(e.injOut, buf.lines...)
@@ -588,8 +594,14 @@ func (e *eng) op(f []string, line string, out printer) {
 		synctest.Wait()
 		out.P("P:C07,C19 ran=true ready=%v%s", e.dGate.parked.Load(), e.deriveOracles(e.dGate.parked.Load()))
 	case "dgo":
-		if !e.dStarted || e.wtxn != nil {
+		if !e.dStarted {
 			out.P("P:C07,C19 ran=false ready=false")
+			return
+		}
+		if e.wtxn != nil {
+			// never generated (the loop's WriteTxn could block on the harness' lock); a shrunk case may contain it
+			e.wait()
+			out.P("P:C07,C19 ran=false ready=%v", e.dGate.parked.Load())
 			return
 		}
 		synctest.Wait()
@@ -631,8 +643,13 @@ func (e *eng) op(f []string, line string, out printer) {
 		synctest.Wait()
 		out.P("P:C07 ran=true ready=%v", e.oGate.parked.Load())
 	case "ogo":
-		if !e.oStarted || e.wtxn != nil {
+		if !e.oStarted {
 			out.P("P:C07 ran=false got=none ready=false")
+			return
+		}
+		if e.wtxn != nil {
+			e.wait()
+			out.P("P:C07 ran=false got=none ready=%v", e.oGate.parked.Load() && e.oCompleted.Load() == 0)
 			return
 		}
 		synctest.Wait()
